@@ -315,13 +315,13 @@ func findBug(tb tb, deadline time.Time, checks int, seed uint64, prop func(*T)) 
 
 	var (
 		r       = newRandomBitStream(0, false)
-		t       = newT(tb, r, flags.verbose, nil)
 		valid   = 0
 		invalid = 0
 	)
 
 	var total time.Duration
 	for valid < checks && invalid < checks*invalidChecksMult {
+		t := newT(tb, r, flags.verbose, nil) // per-test-case state (draw count, failure flag) must not carry over
 		iter := valid + invalid
 		if iter > 0 && time.Until(deadline) < total/time.Duration(iter)*5 {
 			if t.shouldLog() {
